@@ -35,6 +35,10 @@ pub(crate) trait Session {
     /// call is a no-op (the first recorded reason wins).
     fn set_session_stop_reason(&mut self, reason: SessionStopReason);
 
+    /// Fail every future that still waits for the outcome of a delivery on a link of this
+    /// session; called when the session has stopped and no outcome can arrive any more
+    fn abandon_outcome_waiters(&mut self);
+
     /// The shared cell holding why the session (or its connection) stopped
     fn session_stop_reason(&self) -> &Arc<OnceLock<SessionStopReason>>;
 
